@@ -155,7 +155,9 @@ for n in conf_notes:
         print('CONFORMANCE-NOTE:', n, file=sys.stderr)
 if internal:
     print('INTERNAL ERROR:', internal[:2000], file=sys.stderr)
-    sys.exit(2)
+    # violations that were confirmed (replayed identically) stand on their own: the verdict is 1;
+    # a run that has nothing but an internal error is a tool failure
+    sys.exit(1 if viol_new else 2)
 if states < 1 or transitions < 1:
     print('INTERNAL ERROR: nothing was explored', file=sys.stderr)
     sys.exit(2)
